@@ -15,8 +15,15 @@ Generator families (round-2 hardening, HARDENING.md classes S M O A I):
               mag      exact ints and integer-valued floats at 2^31 .. 2^53, huge next to tiny (2^44 + 1), negatives, zeros,
                        cancelling pairs; total magnitude <= 2^53 so EVERY partial sum is exact in int and in float arithmetic
               dyadic   the same scaled by 2^e (huge + tiny multiples of one power of two; every partial sum exactly representable)
-              tol      genuinely inexact float data (0.1, 1e-7 next to 1e6, ints above 2^53): judged by the a-priori bound of
-                       recursive float summation only (the property's "exactly" cannot hold in floats there)
+              tol      genuinely inexact float data (0.1, 1e-7 next to 1e6): judged by the a-priori bound of recursive float summation
+                       (the property's "exactly" cannot hold in floats there), exactly where the canonical tree is exact (judge 'shadow')
+              cancel   (round 3, X) huge exact floats that cancel (2^60, -2^60; H, H, -2H) + tiny updates: every query that the canonical
+                       tree answers from exactly representable node values must equal the exact plain-array sum
+              nonfinite inf / nan / sums beyond 1.797e308: observation-only (outside the property, coordinator policy)
+              a2       (round 3, A2) the source list is edited in place (replace / append / pop) while the tree lives, then a second tree
+                       is built from the same list object
+              volume-* (round 3, W) 12 000 (thorough 130 000) updates / queries / unions / reads on one object; n = 4097, 10 001, 2^16+1,
+                       2^20+2 elements (constructor loop, component loops, longest update / prefix walks)
               sizes 1 2 3 17 64 65 1000; index corners 0, n-1, range(l,l), range(0,n-1), delta 0; repeated identical queries;
               constructor given list / tuple / range / generator (judged only if accepted); the caller's list is compared after
               construction and after updates, then mutated by the caller: answers must not change; a second live instance
@@ -389,8 +396,8 @@ def gen_fw_iter(rng, n=None):
     return "gen", vals, ops, "exact"
 
 
-_TOL_POOL = [0.1, 0.2, 0.3, -0.3, -0.1, 1e-7, 1e-9, 1e-12, 1e6, -1e6, 1e12, 1 / 3, 2.5, 0.0, 1.0, 2 ** 53 + 1, -(2 ** 53 + 1), 10 ** 18, 2 ** 60,
-             1e-3, 123456.789]
+_TOL_POOL = [0.1, 0.2, 0.3, -0.3, -0.1, 1e-7, 1e-9, 1e-12, 1e6, -1e6, 1e12, 1 / 3, 2.5, 0.0, 1.0, 1e-3, 123456.789, 33.0, 33, -0.0]
+_TOL_BEYOND = [2 ** 53 + 1, -(2 ** 53 + 1), 10 ** 18, 2 ** 60]  # inexact queries next to these are observation-only (POLICY_X c)
 
 
 def gen_fw_tol(rng, n=None):
@@ -398,13 +405,14 @@ def gen_fw_tol(rng, n=None):
     equality for every query that the canonical tree answers from exactly representable values only (judge 'shadow')."""
     n = n or rng.choice(FW_SIZES)
     mode = rng.choice(["values", "size"])
-    vals = [rng.choice(_TOL_POOL) if rng.random() < 0.8 else round(rng.uniform(-1000, 1000), 3) for _ in range(n)]
+    pool = _TOL_POOL if rng.random() < 0.85 else _TOL_POOL + _TOL_BEYOND
+    vals = [rng.choice(pool) if rng.random() < 0.8 else round(rng.uniform(-1000, 1000), 3) for _ in range(n)]
     ops = []
     for _ in range(rng.randint(4, min(2 * n + 8, 40))):
         r = rng.random()
         if r < 0.3:
             i = _idx(rng, n)
-            ops.append(("update", i, rng.choice(_TOL_POOL + [0, 0.0]) if rng.random() < 0.8 else -vals[i]))
+            ops.append(("update", i, rng.choice(pool + [0, 0.0]) if rng.random() < 0.8 else -vals[i]))
         elif r < 0.5:
             ops.append(("prefix", _idx(rng, n)))
         elif r < 0.75:
@@ -831,7 +839,7 @@ def oracle_uf(n, ops, outs):
                     a, b = b, a
                 for v in members[b]:
                     lab[v] = a
-                members[a] = members[a] + members.pop(b)
+                members[a].extend(members.pop(b))
             last_find = {}
         elif o[0] == "connected":
             if r != ("b", lab[o[1]] == lab[o[2]]):
@@ -942,45 +950,73 @@ class _DualTree:
         return any(not _fin(v) for v in self.py)
 
 
-SOFT_NONFINITE = "C20-fenwick-nonfinite"  # class name of the (possible) known_findings entry, see run()
+OBS_NONFINITE = "inf/nan value or overflowing block sum in the history (POLICY_X a, b): whole history not judged"
+OBS_BEYOND_2_53 = "inexact query on data whose magnitudes exceed 2^53 (POLICY_X c): this query not judged"
+
+
+def _observation_only(mode, vals, ops):
+    """True when the history feeds inf / nan, or a node or a query result of the canonical tree becomes inf / nan (sums beyond 1.797e308):
+    outside the property (finite data of moderate magnitude); such histories are run and counted, never judged."""
+    if any(not _fin(v) for v in vals) or any(o[0] in ("update", "srcmut") and not _fin(o[2]) for o in ops) or any(o[0] == "srcgrow" and not _fin(o[1]) for o in ops):
+        return True
+    dt = _DualTree(mode, vals)
+    src = list(vals)
+    if dt.nonfinite():
+        return True
+    for o in ops:
+        if o[0] == "update":
+            dt.update(o[1], o[2])
+            if dt.nonfinite():
+                return True
+        elif o[0] == "srcmut":
+            src[o[1]] = o[2]
+        elif o[0] == "srcgrow":
+            src.append(o[1])
+        elif o[0] == "srcshrink":
+            src.pop()
+        elif o[0] == "rebuild":
+            dt = _DualTree("values", src)
+            if dt.nonfinite():
+                return True
+        elif o[0] in ("prefix", "range"):
+            if not _fin((dt.prefix(o[1]) if o[0] == "prefix" else dt.range_sum(o[1], o[2]))[0]):
+                return True
+    return False
 
 
 def oracle_fw(mode, vals, ops, outs, judge="exact", soft=None):
     """Plain array of exact values that received the same initial values and updates (a new plain array after a 'rebuild').
     Returns None or (op index, description).
     judge='exact'  : every answer must equal the exact sum (as a number: 7.0 == 7).
-    judge='tol'    : |answer - exact sum| <= 4 (m + 64) 2^-53 * (sum of |finite values| fed in so far), m = number of values fed in -
+    judge='tol'    : |answer - exact sum| <= 4 (m + 64) 2^-53 * (sum of |values| fed in so far), m = number of values fed in -
                      a bound every float summation of these numbers obeys whatever the order.
-    judge='shadow' : 'tol', and in addition EXACT equality for each query during which the canonical tree (_DualTree) reads only nodes whose
-                     float value is exactly the block sum and forms only exactly representable partial sums (so a tiny update next to huge
-                     cancelling entries must show up exactly in every block where the huge entries cancel).  With inf / nan entries or
-                     overflowing sums: queries the canonical tree answers from finite exact nodes stay exact; where the canonical tree
-                     itself produces inf / nan the implementation may return the exact answer, the plain float array's inf / nan, or raise;
-                     another inf / nan there is appended to `soft` (class C20-fenwick-nonfinite) instead of failing; a finite wrong
-                     answer fails."""
+    judge='shadow' : EXACT equality for each query during which the canonical tree (_DualTree) reads only nodes whose float value is
+                     exactly the block sum and forms only exactly representable partial sums (so a tiny update next to huge cancelling
+                     entries must show up exactly in every block where the huge entries cancel); the other queries obey the 'tol' bound
+                     when all magnitudes fed in stay within 2^53 in total, and are observation-only beyond (a float structure by design
+                     cannot be exact there: POLICY_X c).  Histories with inf / nan / overflow are observation-only as a whole
+                     (POLICY_X a, b).  Observation-only events are appended to `soft`, never returned as failures."""
     vals = _expand_vals(vals)
     if outs and tuple(outs[0])[0] == "na":
         return None
-    raised = bool(outs) and tuple(outs[-1])[0] == "raised"
-    if len(outs) != len(ops) and not (raised and judge == "shadow" and len(outs) < len(ops)):
+    if judge == "shadow" and _observation_only(mode, vals, ops):
+        if soft is not None:
+            soft.append(OBS_NONFINITE)
+        return None
+    if len(outs) != len(ops) and not (outs and tuple(outs[-1])[0] == "raised"):
         return (0, f"{len(outs)} outputs for {len(ops)} operations")
     a = [_ex(v) for v in vals]
-    a_py = [0.0 + v for v in vals] if mode == "size" else list(vals)
     src = list(vals)
-    mass = sum(abs(v) for v in a if v is not None)
+    mass = sum(abs(v) for v in a)
     fed = len(a)
     dt = _DualTree(mode, vals) if judge == "shadow" else None
     for k, (o, r) in enumerate(zip(ops, outs)):
         r = tuple(r)
         if r[0] == "raised":
-            if dt is not None and (dt.nonfinite() or (o[0] == "update" and not _fin(o[2]))):
-                return None
             return (k, f"op {k} {o}: raised {r[1]}")
         if o[0] == "update":
-            a[o[1]] = _add(a[o[1]], _ex(o[2]))
-            a_py[o[1]] = a_py[o[1]] + o[2]
-            if _fin(o[2]):
-                mass += abs(_ex(o[2]))
+            a[o[1]] = a[o[1]] + _ex(o[2])
+            mass += abs(_ex(o[2]))
             fed += 1
             if dt is not None:
                 dt.update(o[1], o[2])
@@ -994,8 +1030,7 @@ def oracle_fw(mode, vals, ops, outs, judge="exact", soft=None):
             src.pop()
         elif o[0] == "rebuild":
             a = [_ex(v) for v in src]
-            a_py = list(src)
-            mass += sum(abs(v) for v in a if v is not None)
+            mass += sum(abs(v) for v in a)
             fed += len(a)
             if dt is not None:
                 dt = _DualTree("values", src)
@@ -1004,41 +1039,28 @@ def oracle_fw(mode, vals, ops, outs, judge="exact", soft=None):
                 return (k, f"op {k}: the list passed to the constructor was modified by the tree (constructor or update)")
         else:
             lo, hi = (0, o[1]) if o[0] == "prefix" else (o[1], o[2])
-            part = a[lo: hi + 1]
-            want = None if any(v is None for v in part) else sum(part)
+            want = sum(a[lo: hi + 1])
             if r[0] != "z" or not _is_num(r[1]):
                 return (k, f"op {k} {o}: returned {r}, expected {_show(want)}")
             got = r[1]
-            if dt is None:
-                if judge == "exact":
-                    ok = _fin(got) and got == want
-                else:
-                    ok = _fin(got) and abs(_ex(got) - want) <= Fraction(4 * (fed + 64), 2 ** 53) * mass
-                if not ok:
-                    return (k, f"op {k} {o}: returned {got!r}, expected {_show(want)}" + ("" if judge == "exact" else " (beyond the float summation bound)"))
-                continue
-            tp, te, exact = dt.prefix(o[1]) if o[0] == "prefix" else dt.range_sum(o[1], o[2])
-            if exact:
-                assert want is not None and te == want, ("harness: canonical tree and plain array disagree in exact arithmetic", o, te, want)
+            if judge == "exact":
                 if not (_fin(got) and got == want):
-                    return (k, f"op {k} {o}: returned {got!r}, expected {_show(want)} (exactly: the tree answers this query from exactly representable "
-                               "block sums only)")
-            elif want is not None and _fin(got):
-                if abs(_ex(got) - want) > Fraction(4 * (fed + 64), 2 ** 53) * mass:
-                    return (k, f"op {k} {o}: returned {got!r}, expected {_show(want)} (beyond the float summation bound)")
-            elif want is not None:  # a finite exact answer exists, the implementation says inf / nan
-                if _fin(tp):
                     return (k, f"op {k} {o}: returned {got!r}, expected {_show(want)}")
-                if soft is not None:
-                    soft.append((k, o, got, _show(want)))
-            else:  # the range contains an inf / nan entry: the plain float array gives inf / nan
-                want_py = 0.0
-                for v in a_py[lo: hi + 1]:
-                    want_py = want_py + v
-                if _fin(got):
-                    return (k, f"op {k} {o}: returned {got!r}, but the range holds a non-finite entry (plain array: {want_py!r})")
-                if not _same_float(got, want_py) and soft is not None:
-                    soft.append((k, o, got, repr(want_py)))
+                continue
+            if dt is not None:
+                tp, te, exact = dt.prefix(o[1]) if o[0] == "prefix" else dt.range_sum(o[1], o[2])
+                if exact:
+                    assert te == want, ("harness: canonical tree and plain array disagree in exact arithmetic", o, te, want)
+                    if not (_fin(got) and got == want):
+                        return (k, f"op {k} {o}: returned {got!r}, expected {_show(want)} (exactly: the tree answers this query from exactly "
+                                   "representable block sums only)")
+                    continue
+                if mass > 2 ** 53:
+                    if soft is not None:
+                        soft.append(OBS_BEYOND_2_53)
+                    continue
+            if not (_fin(got) and abs(_ex(got) - want) <= Fraction(4 * (fed + 64), 2 ** 53) * mass):
+                return (k, f"op {k} {o}: returned {got!r}, expected {_show(want)} (beyond the float summation bound)")
     return None
 
 
@@ -1067,6 +1089,10 @@ def _fw_verdict(mode, vals, ops, judge, soft=None):
     nv = vals["affine"][0] if isinstance(vals, dict) else len(vals)
     res = guarded(run_fw_impl, mode, vals, ops, timeout=5 + (nv + len(ops)) / 20000)
     outs = outcome_to_outs(res, len(ops))
+    if res[0] != "ok" and judge == "shadow" and _observation_only(mode, _expand_vals(vals), ops):
+        if soft is not None:  # hang / exception on inf-nan data: cut by the guard, counted, not judged
+            soft += [OBS_NONFINITE, f"... of which the implementation ended with {res[0]} {str(res[1:])[:60]}"]
+        return outs, None
     bad = oracle_fw(mode, vals, ops, outs, judge, soft) if res[0] == "ok" else (len(ops) - 1, f"implementation {res[0]}: {res[1:]}")
     return outs, bad
 
@@ -1375,8 +1401,6 @@ def run(ctx: Ctx):
     # ---- Fenwick
     coq_cases, metas = [], []
     reported = 0
-    soft_open = [f for f in ctx.open_findings() if f.get("class") == SOFT_NONFINITE]
-    soft_seen = []
     for fam, mode, vals, ops, judge in fw_cases:
         soft = []
         outs, bad = _fw_verdict(mode, vals, ops, judge, soft)
@@ -1402,19 +1426,13 @@ def run(ctx: Ctx):
                 break  # n changes; the histories with rebuilds are short anyway
         lmax("FenwickTree: update calls on one object", sum(1 for o in ops if o[0] == "update") + (n if mode == "size" else 0))
         lmax("FenwickTree: prefix/range_sum calls on one object", nq)
-        if judge == "shadow" and not bad:
+        if judge == "shadow" and not bad and OBS_NONFINITE not in soft:
             ex_q, tol_q = _shadow_stats(mode, vals, ops)
             ctx.count("fw_shadow_queries", "judged exactly (canonical walk exact)", ex_q)
-            ctx.count("fw_shadow_queries", "judged by bound / non-finite rule", tol_q)
-        if soft and not bad:
-            ctx.count("fw_nonfinite", "implementation returns another inf/nan than the plain array (or inf/nan for a finite exact sum) where the canonical tree is non-finite too")
-            if not soft_seen or len(ops) < len(soft_seen[1]):
-                soft_seen = [mode, ops, vals, soft[0]]
-        ctx.count("fw_mode", mode.split(":")[0])
-        if mode not in ("values", "size"):
-            ctx.count("fw_ctor_accepts_" + mode.split(":")[0], not (outs and outs[0][0] == "na"))
-        if judge == "exact" and any(isinstance(v, (int, float)) and abs(v) >= 2 ** 31 for v in vals):
-            ctx.count("fw_magnitude", ">=2^31 present")
+            ctx.count("fw_shadow_queries", "judged by the summation bound (data within 2^53)", tol_q - soft.count(OBS_BEYOND_2_53))
+            ctx.count("fw_shadow_queries", "not judged (inexact, data beyond 2^53)", soft.count(OBS_BEYOND_2_53))
+        for ev in soft:
+            ctx.count("observation_only", ev)
         if bad:
             if reported < 8:
                 s_vals, s_ops, s_outs, s_bad = shrink_fw(mode, spec, ops, judge, bad)
@@ -1440,14 +1458,6 @@ def run(ctx: Ctx):
     failing = ctx.coq_check("fw", "From SV Require Import C20.Fenwick.", "list Z * (list Fenwick.op * list Fenwick.out)",
                             "fun c => list_eqb Fenwick.out_eqb (Fenwick.run_from (fst c) (fst (snd c))) (snd (snd c))", coq_cases)
     fw_disagree = [metas[i] for i in failing]
-    if soft_seen:
-        mode_, ops_, vals_, (k_, o_, got_, want_) = soft_seen
-        what = (f"FenwickTree({'size ctor + updates' if mode_ == 'size' else mode_} {_brief(vals_, 120)}) after {_brief(ops_[:k_], 200)}: {o_} returns {got_!r}, "
-                f"plain array gives {want_} (inf/nan entries or overflowing sums poison ranges that do not contain them: prefix differences inf - inf)")
-        if soft_open:
-            ctx.known_hit(soft_open[0]["id"], what)
-        else:
-            ctx.notes.append("NON-FINITE DATA (reported to the coordinator, no known_findings entry of class " + SOFT_NONFINITE + " yet, not failed): " + what)
     ctx.hist["loop_max_iterations"] = loop_max
 
     ctx.notes += [
@@ -1467,13 +1477,14 @@ def run(ctx: Ctx):
         "demanded for every query during which the canonical Fenwick tree - the index walks of the Coq model, executed in the harness on Python "
         "numbers and on exact values side by side - reads only nodes whose float value equals the exact block sum and forms only exactly "
         "representable partial sums; e.g. FenwickTree([2.0**60, -2.0**60]); update(0, 1.0); prefix(1) must be exactly 1 (node 1 holds 0.0 + 1.0) "
-        "while prefix(0) = 2^60 is only within the bound (node 0 absorbed the 1.0).  All other finite answers obey the summation bound 4(m+64)2^-53 * "
-        "sum|values fed in|.  This exactness rule presupposes the Fenwick block structure (block of node j = [j & (j+1), j]); an implementation "
+        "while prefix(0) = 2^60 is not judged (node 0 absorbed the 1.0; magnitudes beyond 2^53).  Inexact answers on data within 2^53 (0.1, 1e-7 next to "
+        "1e6) obey the summation bound 4(m+64)2^-53 * sum|values fed in|.  This exactness rule presupposes the Fenwick block structure (block of node j = [j & (j+1), j]); an implementation "
         "with another decomposition could be flagged although it meets the bound - accepted, the anchored class is a Fenwick tree.",
-        "inf / nan entries and finite entries whose sums overflow: queries answered from finite exact nodes stay exact; where the canonical tree itself "
-        "yields inf / nan the implementation may give the exact sum, the plain float array's inf / nan, or raise ArithmeticError/ValueError; another "
-        "inf / nan there (range_sum = inf - inf = nan behind an inf entry) is a property of every prefix-difference structure, counted in histogram "
-        "fw_nonfinite and reported as KNOWN-FINDING when known_findings.json has an open entry of class " + SOFT_NONFINITE + "; a finite wrong answer fails.",
+        "OBSERVATION-ONLY (coordinator policy POLICY_X a, b, c; histogram observation_only; never a violation, never a known finding): (a, b) histories "
+        "that feed inf / nan or in which a node / query of the canonical tree overflows to inf (family 'nonfinite') are run under the guard and "
+        "counted only - e.g. FenwickTree([inf, 1.0]).range_sum(1, 1) is nan = inf - inf; (c) single queries that the canonical tree cannot answer "
+        "exactly while the magnitudes fed into the history exceed 2^53 in total (prefix(0) after [2.0**60], update(0, 1.0)) are not judged either; the "
+        "exactly answerable queries of the same histories ARE judged (exact equality), and inexact queries on data within 2^53 obey the bound.",
         "Float INDICES (update(1.0, d)) and FenwickTree(3.0) raise TypeError in the unchanged code and are outside the property (indices in range are ints); "
         "int vs integral-float VALUES and DELTAS are mixed freely (families mag-mixed, cancel, a2).",
         "A2: UnionFind(n) takes no caller object; for FenwickTree the source list is replaced/appended/popped in place while the tree lives (answers "
